@@ -462,6 +462,58 @@ def cmd_mutants(only, out_path, emit):
     return 0 if not missed else 1
 
 
+def cmd_seeded(ids, confirm):
+    """Run the owning check against each seeded change in /verif/seeded/<id>/ (applied to a scratch copy)."""
+    rc_all = 0
+    root = os.path.join(VERIF, "seeded")
+    for sid in sorted(os.listdir(root)):
+        if ids and sid not in ids:
+            continue
+        d = os.path.join(root, sid)
+        if not os.path.exists(os.path.join(d, "patch.diff")):
+            continue
+        meta = json.load(open(os.path.join(d, "meta.json")))
+        base = make_scratch()
+        try:
+            copy_repo(base)
+            p = subprocess.run(["patch", "-p1", "-s", "-i", os.path.join(d, "patch.diff")], cwd=base, stdout=subprocess.PIPE, stderr=subprocess.STDOUT, text=True)
+            if p.returncode != 0:
+                print("SEEDED %s: patch does not apply: %s" % (sid, p.stdout[-300:]))
+                rc_all = 1
+                continue
+            line = "SEEDED %-28s %s" % (sid, meta["property"])
+            if confirm:
+                e = dict(os.environ)
+                e.update({"GOPROXY": "off", "GOSUMDB": "off", "GOTOOLCHAIN": "local", "VERIF_REPO": base})
+                e.pop("GOFLAGS", None)
+                b = subprocess.run([sys.executable, os.path.join(VERIF, "run.py"), "baseline"], env=e, stdout=subprocess.PIPE, stderr=subprocess.STDOUT, text=True)
+                line += " suite=%s" % ("pass" if b.returncode == 0 else "FAIL(" + b.stdout.strip().splitlines()[-1][:80] + ")")
+                demo = meta.get("demo", "demo_test.go")
+                ddir = os.path.join(base, meta.get("demo_dir", "go/mcap"))
+                shutil.copy(os.path.join(d, demo), os.path.join(ddir, "zz_seed_demo_test.go"))
+                r1 = subprocess.run(["go", "test", "-count=1", "-vet=off", "-run", meta.get("demo_run", "Seed"), "."], cwd=ddir, env=e, stdout=subprocess.PIPE, stderr=subprocess.STDOUT, text=True)
+                subprocess.run(["patch", "-p1", "-s", "-R", "-i", os.path.join(d, "patch.diff")], cwd=base)
+                r2 = subprocess.run(["go", "test", "-count=1", "-vet=off", "-run", meta.get("demo_run", "Seed"), "."], cwd=ddir, env=e, stdout=subprocess.PIPE, stderr=subprocess.STDOUT, text=True)
+                subprocess.run(["patch", "-p1", "-s", "-i", os.path.join(d, "patch.diff")], cwd=base)
+                os.remove(os.path.join(ddir, "zz_seed_demo_test.go"))
+                line += " demo(with)=%s demo(without)=%s" % ("fails" if r1.returncode != 0 else "PASSES?!", "passes" if r2.returncode == 0 else "FAILS?!")
+            e2 = dict(os.environ)
+            e2.update({"VERIF_REPO": base, "VERIF_NO_EVIDENCE": "1"})
+            verdicts = []
+            for prop in [meta["property"]] + meta.get("also_check", []):
+                t0 = time.time()
+                c = subprocess.run([sys.executable, os.path.join(VERIF, "run.py"), "check", prop, "--tier", "quick"], env=e2, stdout=subprocess.PIPE, stderr=subprocess.STDOUT, text=True)
+                v = {0: "MISSED", 1: "CAUGHT", 2: "HARNESS-ERROR"}.get(c.returncode, "EXIT-%d" % c.returncode)
+                kind = [l.strip()[:140] for l in c.stdout.splitlines() if l.startswith("  kind=")][:1]
+                verdicts.append("%s:%s(%.0fs)%s" % (prop, v, time.time() - t0, " " + kind[0] if kind else ""))
+                if v != "CAUGHT" and prop == meta["property"]:
+                    rc_all = 1
+            print(line + " " + " ".join(verdicts), flush=True)
+        finally:
+            shutil.rmtree(base, ignore_errors=True)
+    return rc_all
+
+
 def main():
     ap = argparse.ArgumentParser()
     sub = ap.add_subparsers(dest="cmd", required=True)
@@ -477,11 +529,16 @@ def main():
     mu.add_argument("--only", default="")
     mu.add_argument("--out", default="")
     mu.add_argument("--emit-patches", action="store_true")
+    se = sub.add_parser("seeded")
+    se.add_argument("ids", nargs="*")
+    se.add_argument("--confirm", action="store_true")
     b = sub.add_parser("baseline")
     b.add_argument("--tags", default="")
     a = ap.parse_args()
     if a.cmd == "mutants":
         sys.exit(cmd_mutants([x for x in a.only.split(",") if x], a.out, a.emit_patches))
+    if a.cmd == "seeded":
+        sys.exit(cmd_seeded(a.ids, a.confirm))
     if a.cmd == "baseline":
         sys.exit(cmd_baseline(a.tags))
     if a.cmd == "manifest":
